@@ -18,3 +18,8 @@ func TestThriftToJSON(t *testing.T) { pbt.Run(t, Prop) }
 var Base = pbt.Register(basecheck.RespProp("TestResponseBase"))
 
 func TestResponseBase(t *testing.T) { pbt.Run(t, Base) }
+
+// t2j into caller buffers of every capacity: same text, no panic.
+var T2JSweep = pbt.Register(t2jcheck.SweepProp("TestT2JCapacitySweep"))
+
+func TestT2JCapacitySweep(t *testing.T) { pbt.Run(t, T2JSweep) }
